@@ -21,6 +21,7 @@ struct WSource {
     requires: Vec<String>,
     broken: bool,
     id: usize,
+    use_alias: bool,
 }
 
 #[derive(Clone, Debug)]
@@ -35,6 +36,7 @@ struct World {
     config: ConfigParts,
     config_path: Option<String>,
     next_id: usize,
+    aliases: Vec<gen::AliasDef>,
 }
 
 impl World {
@@ -46,7 +48,13 @@ impl World {
         let requires: Vec<String> = s
             .requires
             .iter()
-            .map(|to| gen::relative_require(&s.path, to))
+            .map(|to| {
+                if s.use_alias {
+                    gen::require_text(&s.path, to, &self.aliases)
+                } else {
+                    gen::relative_require(&s.path, to)
+                }
+            })
             .collect();
         corpus::render_lua(
             corpus::BODIES[s.body_index % corpus::BODIES.len()],
@@ -217,6 +225,7 @@ pub fn generate(seed: u64, knobs: &Knobs) -> C10Scenario {
             requires: s.requires.clone(),
             broken: false,
             id: next_id,
+            use_alias: s.use_alias,
         };
         next_id += 1;
         w
@@ -239,6 +248,7 @@ pub fn generate(seed: u64, knobs: &Knobs) -> C10Scenario {
                 .map(|e| e.path.clone()),
         },
         next_id: 0,
+        aliases: if top_level_entry { Vec::new() } else { project.aliases.clone() },
     };
     if project.input_is_file {
         world.sources.push(mk(&project.sources[0]));
@@ -256,6 +266,7 @@ pub fn generate(seed: u64, knobs: &Knobs) -> C10Scenario {
                 body_index: rp.below(corpus::BODIES.len()),
                 version: 0,
                 requires: Vec::new(),
+                use_alias: false,
             };
             let w = mk(&ext);
             let requirer = rp.below(world.sources.len());
@@ -397,11 +408,14 @@ pub fn generate(seed: u64, knobs: &Knobs) -> C10Scenario {
                     requires: Vec::new(),
                     broken: false,
                     id: world.next_id,
+                    use_alias: false,
                 };
                 world.next_id += 1;
                 if world.config.bundle.is_some() && !world.sources.is_empty() && rh.chance(1, 2) {
                     let j = rh.below(world.sources.len());
-                    s.requires.push(world.sources[j].path.clone());
+                    if !world.sources[j].use_alias {
+                        s.requires.push(world.sources[j].path.clone());
+                    }
                 }
                 let body = world.render(&s);
                 world.sources.push(s);
@@ -419,9 +433,11 @@ pub fn generate(seed: u64, knobs: &Knobs) -> C10Scenario {
                 let candidates: Vec<String> = world
                     .all_lua()
                     .iter()
+                    .filter(|s| !s.use_alias)
                     .map(|s| s.path.clone())
                     .filter(|p| {
-                        *p != world.sources[i].path
+                        !world.sources[i].use_alias
+                            && *p != world.sources[i].path
                             && !world.sources[i].requires.contains(p)
                             && !world.reaches(p, &world.sources[i].path)
                     })
@@ -688,6 +704,7 @@ pub fn generate(seed: u64, knobs: &Knobs) -> C10Scenario {
                     requires: Vec::new(),
                     broken: false,
                     id: world.next_id,
+                    use_alias: false,
                 };
                 world.next_id += 1;
                 let body = world.render(&s);
